@@ -65,6 +65,8 @@ theorem loaded_value (cfg : Nat → LockCfg) {c c' : Conc} (h : CStep cfg c none
   cases h with
   | load t i _ => exact ⟨t, i, by simp [updPc]⟩
 
-def Conc.init : Conc := { st := St.init, pc := fun _ => .idle }
+def Conc.initG (g : Nat) : Conc := { st := St.initG g, pc := fun _ => .idle }
+
+def Conc.init : Conc := Conc.initG 0
 
 end GoZero.C19
